@@ -417,3 +417,7 @@ def write_evidence(mod, prop, tier, base_seed, agg, wall_s, wall_runs, reported,
     with open(tmp, 'w') as f:
         json.dump(ev, f, indent=1, sort_keys=True, default=str)
     os.replace(tmp, os.path.join(d, '%s.json' % prop))
+    # <id>.json is what the last run covered (whatever its tier); a per-tier copy keeps the last thorough run readable after later quick runs
+    with open(tmp, 'w') as f:
+        json.dump(ev, f, indent=1, sort_keys=True, default=str)
+    os.replace(tmp, os.path.join(d, '%s.%s.json' % (prop, tier)))
